@@ -61,6 +61,29 @@ let answer kw =
       let n = next () in
       let w = times n (fun () -> nat_of_int (next ())) in
       (match recognize g start w with Some true -> "1" | Some false -> "0" | None -> "none")
+  | "SHIFT" ->
+      (* grammar start ntoks toks -> number of leading tokens that can be shifted, accepted flag *)
+      let g = List.map strip (read_tgrammar ()) in
+      let start = nat_of_int (next ()) in
+      let n = next () in
+      let w = times n (fun () -> nat_of_int (next ())) in
+      (match shift_count g start w with
+       | Some (k, acc) -> string_of_int (int_of_nat k) ^ " " ^ b2s acc
+       | None -> "none")
+  | "TRANSA" ->
+      (* as TRANS, with an explicit attribute per token *)
+      let fuel = nat_of_int (next ()) in
+      let g = read_tgrammar () in
+      let nc = next () in
+      let codes = times nc (fun () -> z_of_int (next ())) in
+      let t_err = nat_of_int (next ()) in
+      let start = nat_of_int (next ()) in
+      let n = next () in
+      let w = times n (fun () -> nat_of_int (next ())) in
+      let attrs = times n (fun () -> nat_of_int (next ())) in
+      (match all_translations_a fuel g codes t_err start w attrs with
+       | None -> "none"
+       | Some l -> "ok|" ^ String.concat ";" (List.map (fun t -> tree_str t ^ "=" ^ string_of_int (int_of_z (tcost t))) l))
   | "TRANS" ->
       let fuel = nat_of_int (next ()) in
       let g = read_tgrammar () in
